@@ -6,6 +6,18 @@ import subprocess
 ROOT = os.path.dirname(os.path.dirname(os.path.abspath(__file__)))
 
 CHECKS = {
+    "C01": {
+        "technique": "runtime monitoring: generated core-language programs run by the real pipeline, stdout and outcome judged by an independent executable reference semantics (history + executable model); determinism re-run in a second worker process",
+        "text": "Random typed programs over the whole core grammar (nesting to depth 5, all operators, five value types, all loop forms and step signs, DATA/READ, error endings 6/11/4) are executed by the real parser, linter, generator and VM; captured stdout is compared byte for byte (numbers by value in their type) and the outcome as (ok | error code + row) with rv/ref.py, a big-step reference over exact rationals. Cases that leave the exact numeric domain are discarded and counted, never judged. Held means: held on the executions counted in the evidence.",
+        "note": "Trusts the reference semantics rv/ref.py as the prescription (written from the property statements and QBasic's documented behaviour); unquoted DATA strings, READ of a number into a string variable, rounding ties and zero FOR steps are outside the judged domain; one known finding (KF-C01-1) is pinned.",
+        "design": "DESIGN.md section 2 C01",
+    },
+    "C07": {
+        "technique": "runtime monitoring: crash/step monitor (caught panic + site, worker death, parser input-operation budget from hook H2) around the real parse + lint on hostile inputs, plus an independent position oracle",
+        "text": "About 1.5e5 (quick) / 2e6 (thorough) inputs - random bytes as UTF-8, token soups, byte/token mutations and every token prefix of all BASIC texts embedded in the repository, nesting stress to depth 200, semantic soups that reuse one name in many roles - are parsed and linted by the real code; any panic, process death, exceeded logical parser budget or error position outside the text is a violation.",
+        "note": "A hang inside the linter has no logical step counter and would be reported as inconclusive (wall-clock watchdog); stack depth is judged with the 8 MiB main-thread stack of the shipped binary.",
+        "design": "DESIGN.md section 2 C07",
+    },
     "C17": {
         "technique": "runtime monitoring: real interpreter run on bounded-exhaustive and random string-function calls, outputs judged online by an executable reference model (Python string operations)",
         "text": "Every enumerated instance of the defining equations is executed by the real pipeline (parse, lint, generate, VM) and compared with the model; exhaustive over the alphabet {a,B,space} up to length 3 (quick) / 5 (thorough) with counts -1..7, all 65536 INTEGER values for VAL(STR$(k)) in the thorough tier, plus random printable-ASCII strings. Held means: held on the executions listed in the evidence.",
